@@ -52,6 +52,8 @@ type Contract struct {
 	SameAs     string   // take clauses and parameter names from this contract
 	Dead       []string // return sites declared unreachable (must be proved unreachable)
 	Defines    []*Define
+	PanicsDeclared bool
+	PanicsKeep []string // ghost prefixes that must be unchanged at every panic site
 	Keeps      []string // ghost prefixes opaque callees of this function are assumed not to touch
 	ModAll     bool     // modifies everything: no frame obligation; callers havoc argument referents and all ghosts
 	Scope      string   // extern/iface contract valid only for callers in this package (relative path)
@@ -101,7 +103,7 @@ type GuardDecl struct {
 	Fields           []string
 }
 
-var kwRe = regexp.MustCompile(`^(requires|ensures|modifies|panics|may_panic|unguarded|scope|keeps|define|loop|mode|extern|assumed|pure|props|noinline|uses|iface|hint|trigger|dead|same_as|instance)\b`)
+var kwRe = regexp.MustCompile(`^(requires|ensures|modifies|panics|may_panic|unguarded|scope|keeps|define|panics_keep|panics_declared|loop|mode|extern|assumed|pure|props|noinline|uses|iface|hint|trigger|dead|same_as|instance)\b`)
 
 // parseContractFile reads //@ lines. pkgPath is the import path the file belongs to
 // (can be overridden by a `//@ package <path>` line for extern contract files).
@@ -284,6 +286,17 @@ func parseContractFile(path, pkgPath string) (*ContractFile, error) {
 				}
 			}
 			cur.Defines = append(cur.Defines, d)
+			last = nil
+		case "panics_declared":
+			// partial-correctness (value) mode, opt-in: every explicit panic this function can reach - its own, an
+			// inlined callee's, or one a callee's contract declares - must be covered by one of its `panics when`
+			// clauses (none = it does not panic). Runtime panics (nil, bounds) stay outside.
+			cur.PanicsDeclared = true
+			last = nil
+		case "panics_keep":
+			// C11: wherever this function (or a callee) can panic, the ghosts with these prefixes still have their
+			// entry values - a panicking handler leaves no trace
+			cur.PanicsKeep = append(cur.PanicsKeep, strings.Fields(strings.Replace(rest, ",", " ", -1))...)
 			last = nil
 		case "keeps":
 			// opaque calls made by this function (function values, uncontracted callees) keep the ghosts with
